@@ -596,4 +596,72 @@ def tokenSem : Sem Nat Nat where
 def St.fresh (P : Type) (gt gn gp : Gen) : St P :=
   ⟨gt, gn, gp, 0, fun _ => none, fun _ => none⟩
 
+/-! ### attribute forwarding: `state.<name>` for a name the state does not define (extension round 2)
+
+`NeuralStateBase.__getattr__` (qucumber/nn_states/neural_state.py:87-88) and `WaveFunctionBase.__getattr__`
+(qucumber/nn_states/wavefunction.py:30-31) are both `return getattr(self.rbm_am, attr)`. Python calls `__getattr__` only after the
+normal lookup (instance dict, class MRO: the state's own attributes, properties and methods) has failed; `getattr(self.rbm_am, attr)`
+raises `AttributeError` when the RBM has no such attribute either. -/
+
+/-- what a public method of the RBM classes does, as far as C14 is concerned -/
+inductive FwdClass where
+  /-- computes a value from its arguments and the parameters: no draw, no write -/
+  | evaluator
+  /-- `gibbs_steps(k, initial_state, overwrite)`: draws (Bernoulli), no write -/
+  | gibbs
+  /-- `sample_h_given_v` / `sample_v_given_h` / `sample_a_given_v` / `sample_v_given_ha`: one Bernoulli half-step, no write -/
+  | halfStep
+  /-- `initialize_parameters`: draws AND overwrites the parameters of `rbm_am` -/
+  | initParams
+  deriving DecidableEq, Repr, Inhabited
+
+/-- the public methods of the class of `rbm_am`: `BinaryRBM` (qucumber/rbm/binary_rbm.py) for `PositiveWaveFunction` /
+`ComplexWaveFunction`, `PurificationRBM` (qucumber/rbm/purification_rbm.py) for `DensityMatrix` -/
+def rbmMethods : Kind → List (String × FwdClass)
+  | .dens => [("effective_energy", .evaluator), ("effective_energy_gradient", .evaluator), ("gamma", .evaluator),
+      ("gamma_grad", .evaluator), ("gibbs_steps", .gibbs), ("initialize_parameters", .initParams), ("mixing_term", .evaluator),
+      ("partition", .evaluator), ("prob_a_given_v", .evaluator), ("prob_h_given_v", .evaluator), ("prob_v_given_ha", .evaluator),
+      ("sample_a_given_v", .halfStep), ("sample_h_given_v", .halfStep), ("sample_v_given_ha", .halfStep)]
+  | _ => [("effective_energy", .evaluator), ("effective_energy_gradient", .evaluator), ("gibbs_steps", .gibbs),
+      ("initialize_parameters", .initParams), ("partition", .evaluator), ("prob_h_given_v", .evaluator),
+      ("prob_v_given_h", .evaluator), ("sample_h_given_v", .halfStep), ("sample_v_given_h", .halfStep)]
+
+/-- first entry of that name -/
+def methodLookup : List (String × FwdClass) → String → Option FwdClass
+  | [], _ => none
+  | (q, c) :: rest, p => if q = p then some c else methodLookup rest p
+
+/-- who answers `state.<name>` -/
+inductive Resolved where
+  /-- the normal lookup succeeds: the state's own attribute / property / method; `__getattr__` is not called -/
+  | own
+  /-- `__getattr__`: the bound method `rbm_am.<name>` -/
+  | forwarded (c : FwdClass)
+  /-- neither the state nor `rbm_am` has it: `getattr(self.rbm_am, attr)` raises `AttributeError` -/
+  | attributeError
+  deriving DecidableEq, Repr, Inhabited
+
+/-- resolution of the METHOD name `name` on a state of kind `k` whose class (and instance) define the names `own`:
+own attribute first, then `rbm_am`'s, `AttributeError` otherwise (neural_state.py:87-88, wavefunction.py:30-31) -/
+def resolveMethod (own : String → Bool) (k : Kind) (name : String) : Resolved :=
+  if own name then .own
+  else match methodLookup (rbmMethods k) name with
+    | some c => .forwarded c
+    | none => .attributeError
+
+/-- the operation of the frame model a forwarded call `state.<name>(…)` on the object in `slot` is: an `eval` for an evaluator,
+`batchGradient` (= `gibbs_steps(k, chains of `rows` rows)`) for `gibbs_steps`; the half-steps and `initialize_parameters` have no
+operation of their own (scope note in claims.d/C14.json: reachable only through forwarding; their callers `gibbs_steps` /
+`reinitialize_parameters` are operations) -/
+def fwdOp (slot arg k rows : Nat) : FwdClass → Option Op
+  | .evaluator => some (.eval slot arg)
+  | .gibbs => some (.batchGradient slot k rows arg)
+  | .halfStep => none
+  | .initParams => none
+
+/-- `compute_normalization(space)` (neural_state.py:195-197): `return self.normalization(space)`; `normalization(space)`
+(neural_state.py:178-193): `return self.rbm_am.partition(space)` — both are own methods of the state (not forwarded) and denote the
+same evaluation as the forwarded `state.partition(space)` -/
+def normalizationOp (slot arg : Nat) : Op := .eval slot arg
+
 end QV.Frame
